@@ -172,11 +172,18 @@ Fixpoint elems_prefixes (pre p : list seg) : list (list seg) :=
 Definition is_dive (r : rule) : bool := match r with RDive => true | _ => false end.
 Definition is_omit (r : rule) : bool := match r with ROmitempty => true | _ => false end.
 
-Definition has_dive (sch : schema) (p : list seg) : bool :=
-  existsb (fun e => path_eqb (e_path e) p && existsb is_dive (e_rules e)) sch.
+(* the paths of the slice fields that carry `dive` *)
+Definition dive_paths (sch : schema) : list (list seg) :=
+  map e_path (filter (fun e => existsb is_dive (e_rules e)) sch).
 
-Definition live (sch : schema) (e : entry) : bool :=
-  forallb (has_dive sch) (elems_prefixes [] (e_path e)).
+Definition live_in (dp : list (list seg)) (e : entry) : bool :=
+  forallb (fun p => mem path_eqb p dp) (elems_prefixes [] (e_path e)).
+
+Definition live (sch : schema) (e : entry) : bool := live_in (dive_paths sch) e.
+
+(* the entries the validator reaches *)
+Definition live_part (sch : schema) : schema :=
+  let dp := dive_paths sch in filter (live_in dp) sch.
 
 (* ------------------------------------------------------------------ decoding *)
 
@@ -216,7 +223,7 @@ Definition entry_errors (o : oracle) (cfg : jv) (e : entry) : list (str * str) :
            (instances (e_path e) (Some cfg)).
 
 Definition all_errors (o : oracle) (sch : schema) (cfg : jv) : list (str * str) :=
-  flat_map (entry_errors o cfg) (filter (live sch) sch).
+  flat_map (entry_errors o cfg) (live_part sch).
 
 Definition validate (o : oracle) (sch : schema) (cfg : jv) : verdict :=
   if decode_ok sch cfg then
